@@ -71,6 +71,7 @@ func fnInfo(ctx *cmdContext, args map[string]any) (output respValue, err error) 
 	uptime := time.Since(started)
 
 	data := map[string]any{}
+	infoMu.Lock() // the counters are updated by every connection under this lock
 	data["run_id"] = info.run_id
 	data["tcp_port"] = ctx.cd.port
 	data["server_time_usec"] = uptime.Microseconds()
@@ -104,6 +105,7 @@ func fnInfo(ctx *cmdContext, args map[string]any) (output respValue, err error) 
 	data["used_memory_rss_human"] = info.humanValue(info.used_memory_rss)
 	data["used_memory_peak_human"] = info.humanValue(info.used_memory_peak)
 	data["total_system_memory_human"] = info.humanValue(info.total_system_memory)
+	infoMu.Unlock()
 
 	// construct output for the requested sections
 	var sb strings.Builder
